@@ -1,4 +1,418 @@
 package main
 
+import (
+	"go/ast"
+	"go/token"
+	"sort"
+	"strconv"
+	"strings"
+)
+
+// rdWalkCalls calls f for every call expression in the function body.
+func rdWalkCalls(fd *ast.FuncDecl, f func(*ast.CallExpr)) {
+	ast.Inspect(fd.Body, func(n ast.Node) bool {
+		if c, ok := n.(*ast.CallExpr); ok {
+			f(c)
+		}
+		return true
+	})
+}
+
+func (c *ctx) rdIntConst(rel, name string) (int64, bool) {
+	for _, d := range c.file(rel).Decls {
+		gd, ok := d.(*ast.GenDecl)
+		if !ok || gd.Tok != token.CONST {
+			continue
+		}
+		for _, s := range gd.Specs {
+			vs := s.(*ast.ValueSpec)
+			for i, n := range vs.Names {
+				if n.Name == name && i < len(vs.Values) {
+					if bl, ok := vs.Values[i].(*ast.BasicLit); ok && bl.Kind == token.INT {
+						v, err := strconv.ParseInt(bl.Value, 0, 64)
+						if err == nil {
+							return v, true
+						}
+					}
+				}
+			}
+		}
+	}
+	return 0, false
+}
+
+func (c *ctx) rdStrConst(rel, name string) (string, bool) {
+	for _, d := range c.file(rel).Decls {
+		gd, ok := d.(*ast.GenDecl)
+		if !ok || gd.Tok != token.CONST {
+			continue
+		}
+		for _, s := range gd.Specs {
+			vs := s.(*ast.ValueSpec)
+			for i, n := range vs.Names {
+				if n.Name == name && i < len(vs.Values) {
+					if bl, ok := vs.Values[i].(*ast.BasicLit); ok && bl.Kind == token.STRING {
+						return unquote(bl.Value), true
+					}
+				}
+			}
+		}
+	}
+	return "", false
+}
+
+// rdIntArg resolves an integer argument: literal or package constant of asn1parser.go.
+func (c *ctx) rdIntArg(rel string, e ast.Expr) (int64, bool) {
+	switch x := e.(type) {
+	case *ast.BasicLit:
+		if x.Kind == token.INT {
+			v, err := strconv.ParseInt(x.Value, 0, 64)
+			return v, err == nil
+		}
+	case *ast.Ident:
+		return c.rdIntConst(rel, x.Name)
+	}
+	return 0, false
+}
+
+// capOf reports how the value bytes are read in fn of asn1parser.go:
+// via <limited>(reader, tl, CAP) where limited itself checks ExpectLengthNotGreater first -> "some CAP", via ReadExpectedBytes -> "none".
+func (c *ctx) capOf(fn, limited string) string {
+	const rel = "core/asn1parser/asn1parser.go"
+	fd := c.funcDecl(rel, "", fn)
+	res := ""
+	rdWalkCalls(fd, func(call *ast.CallExpr) {
+		name := exprStr(call.Fun)
+		switch name {
+		case limited:
+			if len(call.Args) != 3 {
+				fail("%s: %s: %s with %d args", c.pos(call), fn, limited, len(call.Args))
+			}
+			v, ok := c.rdIntArg(rel, call.Args[2])
+			if !ok {
+				fail("%s: %s: cap argument %s is not an integer constant", c.pos(call), fn, exprStr(call.Args[2]))
+			}
+			if res != "" {
+				fail("%s: %s reads value bytes more than once", c.pos(call), fn)
+			}
+			res = "some " + strconv.FormatInt(v, 10)
+		case "ReadExpectedBytes":
+			if res != "" {
+				fail("%s: %s reads value bytes more than once", c.pos(call), fn)
+			}
+			res = "none"
+		}
+	})
+	if res == "" {
+		fail("%s: %s: no value read found", c.pos(fd), fn)
+	}
+	return res
+}
+
+// limitedChecksFirst verifies that fn = `err := ExpectLengthNotGreater(big.NewInt(maxLength), &tagLength.Length.Length); if err != nil {return nil, err}; ...`
+func (c *ctx) limitedChecksFirst(fn string) bool {
+	fd := c.funcDecl("core/asn1parser/asn1parser.go", "", fn)
+	if len(fd.Body.List) < 2 {
+		return false
+	}
+	as, ok := fd.Body.List[0].(*ast.AssignStmt)
+	if !ok || len(as.Rhs) != 1 {
+		return false
+	}
+	if exprStr(as.Rhs[0]) != "ExpectLengthNotGreater(big.NewInt(maxLength),&tagLength.Length.Length)" {
+		return false
+	}
+	ifs, ok := fd.Body.List[1].(*ast.IfStmt)
+	if !ok || exprStr(ifs.Cond) != "err!=nil" || len(ifs.Body.List) != 1 {
+		return false
+	}
+	r, ok := ifs.Body.List[0].(*ast.ReturnStmt)
+	return ok && len(r.Results) == 2 && exprStr(r.Results[1]) == "err"
+}
+
+func rdOidLean(s string) string {
+	parts := strings.Split(s, ".")
+	for _, p := range parts {
+		if _, err := strconv.Atoi(p); err != nil {
+			fail("not a dotted OID: %q", s)
+		}
+	}
+	return "[" + strings.Join(parts, ", ") + "]"
+}
+
 func genReader(c *ctx, out string) {
+	const ap = "core/asn1parser/asn1parser.go"
+	const cr = "crl/crlreader/crlreader.go"
+	l := newLean("Reader", "Crv.ReaderTypes")
+
+	// --- caps ---------------------------------------------------------------------------
+	if !c.limitedChecksFirst("ReadTVLBytesWithLimit") {
+		fail("ReadTVLBytesWithLimit does not start with the length check")
+	}
+	l.p("/-- asn1parser.go:ReadStruct — cap on the declared content length before allocation. -/")
+	l.p("def structCap : Option Nat := %s", c.capOf("ReadStruct", "ReadTVLBytesWithLimit"))
+	valueLimited := "ReadValueBytesWithLimit"
+	hasVL := false
+	for _, d := range c.file(ap).Decls {
+		if fd, ok := d.(*ast.FuncDecl); ok && fd.Name.Name == valueLimited {
+			hasVL = true
+		}
+	}
+	if hasVL && !c.limitedChecksFirst(valueLimited) {
+		fail("%s does not start with the length check", valueLimited)
+	}
+	for _, p := range [][2]string{{"ReadUtcTime", "utcTimeCap"}, {"ParseBitString", "bitStringCap"}, {"ReadBigInt", "bigIntCap"}, {"ParseOctetString", "octetStringCap"}} {
+		l.p("/-- asn1parser.go:%s — how the value bytes are read (`none` = `ReadExpectedBytes(int(len.Int64()))` unchecked). -/", p[0])
+		l.p("def %s : Option Nat := %s", p[1], c.capOf(p[0], valueLimited))
+	}
+
+	// --- length decoding ------------------------------------------------------------------
+	masks := map[string]bool{}
+	for _, fn := range []string{"ReadLength", "PeekLength"} {
+		fd := c.funcDecl(ap, "", fn)
+		short := false
+		ast.Inspect(fd.Body, func(n ast.Node) bool {
+			be, ok := n.(*ast.BinaryExpr)
+			if !ok || be.Op != token.AND {
+				return true
+			}
+			if exprStr(be.X) != "lengthOrSizeOfLength" {
+				return true
+			}
+			v, ok := c.rdIntArg(ap, be.Y)
+			if !ok {
+				fail("%s: %s: mask is not a constant", c.pos(be), fn)
+			}
+			if v == 0x80 {
+				short = true
+			} else {
+				masks[strconv.FormatInt(v, 10)] = true
+			}
+			return true
+		})
+		if !short {
+			fail("%s: short-form test `& 0x80` not found", fn)
+		}
+	}
+	if len(masks) != 1 {
+		fail("ReadLength/PeekLength use different or no length-count masks: %v", masks)
+	}
+	for m := range masks {
+		l.p("/-- asn1parser.go:ReadLength/PeekLength — mask applied to the first length byte to get the number of length bytes. -/")
+		l.p("def lengthCountMask : UInt8 := %s", m)
+	}
+
+	// --- version --------------------------------------------------------------------------
+	pv := c.funcDecl(cr, "", "parseVersion")
+	verExpr := ""
+	ast.Inspect(pv.Body, func(n ast.Node) bool {
+		as, ok := n.(*ast.AssignStmt)
+		if ok && len(as.Lhs) == 1 && exprStr(as.Lhs[0]) == "version" && len(as.Rhs) == 1 {
+			verExpr = exprStr(as.Rhs[0])
+		}
+		return true
+	})
+	l.p("/-- crlreader.go:parseVersion — `%s`. -/", verExpr)
+	switch verExpr {
+	case "int(readUint8)+1":
+		l.p("def versionOf (b : UInt8) : Nat := b.toNat + 1")
+	case "int(readUint8+1)":
+		l.p("def versionOf (b : UInt8) : Nat := (b + 1).toNat")
+	default:
+		fail("%s: parseVersion: unsupported version expression %q", c.pos(pv), verExpr)
+	}
+	rc := c.funcDecl(cr, "StreamingCRLFileReader", "ReadCRL")
+	maxVer := int64(-1)
+	flags := map[string]bool{}
+	ast.Inspect(rc.Body, func(n ast.Node) bool {
+		ifs, ok := n.(*ast.IfStmt)
+		if !ok {
+			return true
+		}
+		cond := exprStr(ifs.Cond)
+		if strings.HasPrefix(cond, "version>") {
+			if be, ok := ifs.Cond.(*ast.BinaryExpr); ok {
+				if v, ok := c.rdIntArg(cr, be.Y); ok {
+					maxVer = v
+				}
+			}
+		}
+		switch cond {
+		case "reader.Position()<tbsCertListEnd&&revokedCertificateListExists(reader)":
+			flags["list"] = true
+		case "revokedCertificateListExists(reader)":
+			flags["list"] = false
+		case "reader.Position()<tbsCertListEnd&&extensionsExists(reader,version)":
+			flags["exts"] = true
+		case "extensionsExists(reader,version)":
+			flags["exts"] = false
+		}
+		return true
+	})
+	if maxVer < 0 {
+		fail("%s: ReadCRL: `if version > N` not found", c.pos(rc))
+	}
+	if _, ok := flags["list"]; !ok {
+		fail("%s: ReadCRL: revoked-list presence test not recognised", c.pos(rc))
+	}
+	if _, ok := flags["exts"]; !ok {
+		fail("%s: ReadCRL: extensions presence test not recognised", c.pos(rc))
+	}
+	l.p("/-- crlreader.go:ReadCRL — `if version > %d` rejects. -/", maxVer)
+	l.p("def maxVersion : Nat := %d", maxVer)
+	l.p("/-- crlreader.go:ReadCRL — optional trailing fields are only looked for before the declared end of tbsCertList. -/")
+	l.p("def listGuardedByTbsEnd : Bool := %v", flags["list"])
+	l.p("def extsGuardedByTbsEnd : Bool := %v", flags["exts"])
+	// entry loop: for reader.Position() < revokedCertListEnd { ReadStruct …; InsertRevokedCertificate … }
+	pl := c.funcDecl(cr, "", "parseRevokedCertificateList")
+	loopOK := false
+	ast.Inspect(pl.Body, func(n ast.Node) bool {
+		fs, ok := n.(*ast.ForStmt)
+		if ok && fs.Init == nil && fs.Post == nil && exprStr(fs.Cond) == "reader.Position()<revokedCertListEnd" {
+			loopOK = true
+		}
+		return true
+	})
+	if !loopOK {
+		fail("%s: parseRevokedCertificateList: entry loop is not `for reader.Position() < revokedCertListEnd`", c.pos(pl))
+	}
+	l.p("def entryLoopBoundedByListEnd : Bool := true")
+
+	// --- critical gate --------------------------------------------------------------------
+	const es = "crl/crlreader/extensionsupport/extensionsupport.go"
+	var handled []string
+	for _, d := range c.file(es).Decls {
+		gd, ok := d.(*ast.GenDecl)
+		if !ok || gd.Tok != token.VAR {
+			continue
+		}
+		for _, s := range gd.Specs {
+			vs := s.(*ast.ValueSpec)
+			if len(vs.Names) != 1 || vs.Names[0].Name != "handledCRLExtensions" {
+				continue
+			}
+			cl, ok := vs.Values[0].(*ast.CompositeLit)
+			if !ok {
+				fail("handledCRLExtensions is not a composite literal")
+			}
+			for _, e := range cl.Elts {
+				kv := e.(*ast.KeyValueExpr)
+				if exprStr(kv.Value) != "true" {
+					continue
+				}
+				name := exprStr(kv.Key)
+				if v, ok := c.rdStrConst(es, name); ok {
+					handled = append(handled, v)
+				} else if bl, ok := kv.Key.(*ast.BasicLit); ok {
+					handled = append(handled, unquote(bl.Value))
+				} else {
+					fail("handledCRLExtensions key %s not resolvable", name)
+				}
+			}
+		}
+	}
+	sort.Strings(handled)
+	var hl []string
+	for _, h := range handled {
+		hl = append(hl, rdOidLean(h))
+	}
+	l.p("/-- extensionsupport.go:handledCRLExtensions — critical extensions with these OIDs pass the gate. -/")
+	l.p("def handledCriticalOids : List (List Nat) := [%s]", strings.Join(hl, ", "))
+	if v, ok := c.rdStrConst(es, "OidCrlExtCrlNumber"); ok {
+		l.p("def oidCrlNumberGen : List Nat := %s", rdOidLean(v))
+	}
+	if v, ok := c.rdStrConst(es, "OidCertExtAuthorityKeyId"); ok {
+		l.p("def oidAuthorityKeyIdGen : List Nat := %s", rdOidLean(v))
+	}
+
+	// --- hash table -----------------------------------------------------------------------
+	const hv = "core/signatureverify/hashandverifystrategieslookup.go"
+	hashNames := map[string]string{"crypto.SHA1": "HashAlg.sha1", "crypto.SHA224": "HashAlg.sha224", "crypto.SHA256": "HashAlg.sha256", "crypto.SHA384": "HashAlg.sha384", "crypto.SHA512": "HashAlg.sha512"}
+	var rows [][2]string
+	var prefixes [][2]string
+	for _, d := range c.file(hv).Decls {
+		gd, ok := d.(*ast.GenDecl)
+		if !ok || gd.Tok != token.VAR {
+			continue
+		}
+		for _, s := range gd.Specs {
+			vs := s.(*ast.ValueSpec)
+			if len(vs.Names) != 1 || len(vs.Values) != 1 {
+				continue
+			}
+			cl, ok := vs.Values[0].(*ast.CompositeLit)
+			if !ok {
+				continue
+			}
+			switch vs.Names[0].Name {
+			case "oidToHashAlgorithmMap":
+				for _, e := range cl.Elts {
+					kv := e.(*ast.KeyValueExpr)
+					h, ok := hashNames[exprStr(kv.Value)]
+					if !ok {
+						h = "unknownHash_" + strings.ReplaceAll(exprStr(kv.Value), ".", "_")
+					}
+					rows = append(rows, [2]string{unquote(kv.Key.(*ast.BasicLit).Value), h})
+				}
+			case "oidPrefixToVerifyStrategyMap":
+				for _, e := range cl.Elts {
+					kv := e.(*ast.KeyValueExpr)
+					v := exprStr(kv.Value)
+					k := ""
+					switch v {
+					case "new(RSASignatureVerifyStrategy)":
+						k = "KeyAlg.rsa"
+					case "new(ECDSASignatureVerifyStrategy)":
+						k = "KeyAlg.ecdsa"
+					default:
+						fail("unknown verify strategy %s", v)
+					}
+					prefixes = append(prefixes, [2]string{unquote(kv.Key.(*ast.BasicLit).Value), k})
+				}
+			}
+		}
+	}
+	if len(rows) == 0 || len(prefixes) == 0 {
+		fail("hash / strategy tables not found in %s", hv)
+	}
+	sort.Slice(rows, func(i, j int) bool { return rows[i][0] < rows[j][0] })
+	sort.Slice(prefixes, func(i, j int) bool { return prefixes[i][0] < prefixes[j][0] })
+	l.p("/-- hashandverifystrategieslookup.go:oidToHashAlgorithmMap. -/")
+	l.p("def hashTable : List (List Nat × HashAlg) := [")
+	for i, r := range rows {
+		sep := ","
+		if i == len(rows)-1 {
+			sep = ""
+		}
+		l.p("  (%s, %s)%s", rdOidLean(r[0]), r[1], sep)
+	}
+	l.p("]")
+	l.p("def lookupHash (oid : List Nat) : Option HashAlg := (hashTable.find? (fun p => p.1 == oid)).map (·.2)")
+	l.p("/-- hashandverifystrategieslookup.go:oidPrefixToVerifyStrategyMap (string prefix of the dotted form), default strategy. -/")
+	l.p("def strategyPrefixes : List (String × KeyAlg) := [")
+	for i, r := range prefixes {
+		sep := ","
+		if i == len(prefixes)-1 {
+			sep = ""
+		}
+		l.p("  (%s, %s)%s", leanStr(r[0]), r[1], sep)
+	}
+	l.p("]")
+	// default strategy: last statement of getVerifyStrategyFromOID
+	gs := c.funcDecl(hv, "", "getVerifyStrategyFromOID")
+	last := gs.Body.List[len(gs.Body.List)-1]
+	r, ok := last.(*ast.ReturnStmt)
+	if !ok || len(r.Results) != 1 {
+		fail("getVerifyStrategyFromOID does not end in a return")
+	}
+	switch exprStr(r.Results[0]) {
+	case "new(RSASignatureVerifyStrategy)":
+		l.p("def defaultStrategy : KeyAlg := KeyAlg.rsa")
+	case "new(ECDSASignatureVerifyStrategy)":
+		l.p("def defaultStrategy : KeyAlg := KeyAlg.ecdsa")
+	default:
+		fail("unknown default strategy")
+	}
+	l.write(out)
+	c.facts["reader"] = map[string]interface{}{"handledCritical": handled, "hashRows": len(rows), "maxVersion": maxVer, "flags": flags}
 }
